@@ -3,8 +3,23 @@
 proof side : lean/Heph/Props/C03.lean (theorems about lean/Heph/Model/Mutation.lean:
              eraseAt/skeleton/erasureDiff on the by-value IR, the feasibility test on an exported
              type graph through C19's dfs, the enumeration of combinations)
-tie to code: real programs through Generator -> TypeErasure (harness/pipeline.py) with the
-             recording plugin harness/plugin_tda.py:
+tie to code: real programs through TypeErasure with the recording plugin harness/plugin_tda.py, from
+             two streams:
+             STRUCTURED (harness/c03_family.py, a fixed number per tier, first): small IR programs
+             built by hand with the real src.ir classes from a grammar of erasure-relevant shapes —
+             ~50 initializer kinds (constants; `new C<targs>(args)` whose arguments do / do not
+             determine the type variables; nested generic constructors; calls of parameterized
+             functions whose type parameter occurs only in the result type / also in a parameter
+             type, with and without receiver; method calls and field accesses on receivers that are a
+             generic `new`, a variable, a field access, a generic call, a conditional; conditionals
+             with generic branches; `==` on a generic `new`; chains x declared from y declared from a
+             generic call) x declaration kinds (typed local, expression-bodied function, block body
+             with returned value, assignment, field assignment, call argument, global, non-final
+             local) x expected types (same constructor, parameterized super type, non-generic super
+             type, none), every combination that exists, in Java and (rotating) one other language,
+             then random compositions of several such declarations in one function (run.rng);
+             GENERATED (harness/pipeline.py): Generator -> TypeErasure, within a wall-clock budget.
+             Judges, on every program of both streams:
              (a) `mut.erasure_diff` on the by-value exports before/after must answer sites of
                  the three permitted kinds only; an independent by-value walk in Python
                  (`py_erasure_diff`) must find the same sites, and their number must equal the
@@ -12,11 +27,33 @@ tie to code: real programs through Generator -> TypeErasure (harness/pipeline.py
              (b) the model must agree with every recorded answer of `is_combination_feasible`
                  (pre-filter on the shared graph, combination queries on the filtered graph,
                  random extra combinations on the graph as built) and with the combination applied;
-             (c) the erased program is judged by the verified checker (driver op "check.wt",
-                 used only if it exists) and, for Java, by javac: original accepted and erased
-                 rejected is a violation;
+             (c) the erased program is judged by the verified checker of C01 (driver op "check.wt",
+                 on the recorded inferred types) and, for Java, by javac: original accepted and erased
+                 rejected is a violation (structured stream: one grouped javac run over the programs
+                 whose Java text changed, every program in a package of its own, stopped after flow
+                 analysis; a rejection is confirmed by a complete javac run of the pair);
              (d) a plain-Python restatement of the feasibility criterion by reachability closure
-                 (`ref_feasible`) judges every recorded answer independently of the model.
+                 (`ref_feasible`) judges every recorded answer independently of the model;
+             and on every program of the structured stream
+             (e) the INFERENCE ORACLE harness/c03_oracle.py: a type checker with local inference over
+                 the by-value export of the erased program that knows nothing of the type graph —
+                 an omitted declared type must be synthesisable from the initializer / body without
+                 an expected type, omitted type arguments must be determined by the arguments or by
+                 an expected type that is still present (none in receiver position, in operands, in
+                 the initializer of a declaration whose type is omitted too), and the program must
+                 type check with what was inferred; `cannot-infer` / `ill-typed` is a violation whose
+                 signature is the SHAPE (construct : position path : missing source) and whose replay
+                 carries the descriptor, the by-value program, the language, the combinations
+                 applied and the texts;
+             (f) for Kotlin, a text-level restatement on the real translation of the erased program
+                 (nothing re-inserted): a receiver `A()`, `mk()`, `x.make()` … without type arguments,
+                 or a declaration without type whose whole initializer is such an expression, has no
+                 inferable type argument.
+             The construction of the type graph (TypeDependencyAnalysis) is NOT modelled in Lean: the
+             model reads the graph the code built; defects of the construction are what (c), (e), (f)
+             are for (seeded/C03-1 and C03-2 were missed before the structured stream existed).
+env        : C03_N / C03_BUDGET (generated stream), C03_FAMILY_RANDOM (random compositions),
+             C03_FAMILY_ONLY=<name prefix> (debug: part of the structured stream), C03_LANGS.
 """
 import itertools
 import json
@@ -714,8 +751,10 @@ def judge_javac(run, r, jres, sites=None):
                                    "erased-ok" if rc_e == 0 else "erased-rejected",
                                    "" if g != e else "(same text)"))
     run.count({"javac": [rc_g == 0, rc_e == 0], "changed": g != e, "spec": spec_key(r["spec"])}, nontrivial=g != e)
-    if rc_g == 0 and rc_e != 0 and "family" in r["spec"]:
-        # the grouped compile stops after flow analysis: confirm with the complete compiler, each text alone
+    if rc_g == 0 and rc_e != 0 and "family" in r["spec"] and \
+            sum(v for k, v in run.cov.get("javac", {}).items() if k.startswith("confirmed-alone")) < 3:
+        # the grouped compile stops after flow analysis: the first rejections of a run are confirmed with
+        # the complete compiler, each text alone (a JVM start each: not for every one of a series)
         (rc_g, out_g), (rc_e, out_e) = javac(g), javac(e)
         run.tally("javac", "confirmed-alone:%s/%s" % (rc_g == 0, rc_e == 0))
     if rc_g == 0 and rc_e != 0:
@@ -1012,27 +1051,70 @@ def check(run):
     structured_stream(run, langs)
     if run.tier == "quick":
         specs += make_specs(run, int(os.environ.get("C03_N", "100")), langs=langs, cap=40, base=base)
-        run_all(run, specs, budget_s=int(os.environ.get("C03_BUDGET", "75")))
+        run_all(run, specs, budget_s=int(os.environ.get("C03_BUDGET", "70")))
     else:
         specs += make_specs(run, int(os.environ.get("C03_N", "4000")), langs=langs, cap=60)
         run_all(run, specs, budget_s=int(os.environ.get("C03_BUDGET", "1300")))
 
 
+def family_javac(rs):
+    """javac verdict pairs of the Java programs of the structured stream whose Java text changed (an
+    unchanged text has nothing to judge): two grouped compiles, originals and erased texts"""
+    t0 = time.time()
+    ch = [k for k, r in enumerate(rs) if r["spec"]["lang"] == "java" and r["stages"]["gen"].get("texts")
+          and r["stages"]["erase"]["texts"]["java"] != r["stages"]["gen"]["texts"]["java"]]
+    with ThreadPoolExecutor(2) as ex:
+        fg = ex.submit(javac_grouped, [rs[k]["stages"]["gen"]["texts"]["java"] for k in ch])
+        fe = ex.submit(javac_grouped, [rs[k]["stages"]["erase"]["texts"]["java"] for k in ch])
+        g, e = fg.result(), fe.result()
+    out = [None] * len(rs)
+    for j, k in enumerate(ch):
+        out[k] = (g[j], e[j])
+    return out, time.time() - t0
+
+
 def structured_stream(run, langs):
     """hand-built programs of the shape grammar (harness/c03_family.py): a FIXED number per tier, the
-    exhaustive-small enumeration first, random compositions (run.rng) after"""
+    exhaustive-small enumeration first, random compositions (run.rng) after.  All programs go through
+    the real TypeErasure in worker processes, then the model requests (chunks, one driver process each)
+    and ONE pair of grouped javac runs are made in parallel, then every program is judged in order"""
     quick = run.tier == "quick"
     n_random = int(os.environ.get("C03_FAMILY_RANDOM", "60" if quick else "1500"))
     specs = c03_family.family_specs(run.rng, n_random, langs=langs, quick=quick)
     if os.environ.get("C03_FAMILY_ONLY"):
         specs = [sp for sp in specs if sp["name"].startswith(os.environ["C03_FAMILY_ONLY"])]
     t0 = time.time()
-    run_all(run, specs, budget_s=3000, batch_size=120)
-    keys = ("programs", "time_pipeline_wall_s", "time_model_s", "time_javac_s", "time_judge_s")
-    run.cov["structured_stream"] = dict({k: run.cov.pop(k, None) for k in keys}, specs=len(specs),
-                                        wall_s=round(time.time() - t0, 1),
-                                        pipeline=run.cov.pop("pipeline", None))
-    run.log("structured stream: %d programs in %.0fs" % (len(specs), time.time() - t0))
+    have_checker = checker_available()
+    rs = []
+    for r in stream_results(run, specs, budget_s=3000):
+        if "exception" in r or "cutoff" in r or "erase" not in r.get("stages", {}):
+            raise common.HarnessError("structured stream: %s (%s) did not go through TypeErasure: %s" % (
+                r["spec"].get("name"), r["spec"]["lang"], r.get("exception", r.get("cutoff"))))
+        p = r.get("plugins", {}).get("plugin_tda", {})
+        if "error" in p:
+            raise common.HarnessError("plugin_tda failed: " + p["error"])
+        rs.append(r)
+    order = {(sp["name"], sp["lang"]): i for i, sp in enumerate(specs)}
+    rs.sort(key=lambda r: order[(r["spec"]["name"], r["spec"]["lang"])])
+    t1 = time.time()
+    chunk = 100
+    with ThreadPoolExecutor(5) as ex:
+        fj = ex.submit(family_javac, rs)
+        fms = [ex.submit(batch_model, run, rs[i:i + chunk], have_checker) for i in range(0, len(rs), chunk)]
+        ws, tm = [], 0.0
+        for f in fms:
+            w, t = f.result()
+            ws += w
+            tm += t
+        js, tj = fj.result()
+    t2 = time.time()
+    for r, w, jres in zip(rs, ws, js):
+        judge_all(run, r, w, jres, have_checker)
+    run.cov["structured_stream"] = {"programs": len(rs), "by_language": run.cov.get("structured"),
+                                    "time_pipeline_wall_s": round(t1 - t0, 1), "time_model_s": round(tm, 1),
+                                    "time_javac_s": round(tj, 1), "time_model_and_javac_wall_s": round(t2 - t1, 1),
+                                    "time_judge_s": round(time.time() - t2, 1), "wall_s": round(time.time() - t0, 1)}
+    run.log("structured stream: %d programs in %.0fs" % (len(rs), time.time() - t0))
 
 
 def replay(run, rp):
